@@ -265,7 +265,24 @@ pub fn gen_verbatim_program(rng: &mut Rng) -> String {
   out
 }
 
+/// every position a reference to a global can stand in, for the rules whose fix rewrites or imports that global: whatever
+/// the rule reports there, each fix alone must leave text that parses (seed C13-7: a JSX member-expression tag names its
+/// object twice, `<G.Foo>x</G.Foo>`, and a fix that renames one of the two breaks the element)
+const GLOBAL_REF_SHAPES: &[&str] = &[
+  "$.foo;", "$[\"foo\"];", "typeof $;", "$?.foo;", "new $.Foo();", "const { a } = $;", "({ $ });", "[$][0];", "f($, $);", "`${$}`;", "tag`${$.x}`;",
+  "class A9 extends $.Base {}", "x9 = $ ?? $.y;", "($ as any).foo;", "let t9: typeof $.x;", "$!.foo;", "for (const k in $) {}", "label9: $.foo;",
+  "const e9 = <$.Foo>x</$.Foo>;", "const e9 = <$.ui.Panel a=\"1\">{$.x}</$.ui.Panel>;", "const e9 = <$.Foo />;", "const e9 = <div a={$.b} {...$}>{$}</div>;",
+  "const e9 = <><$.A></$.A><$.B/></>;", "const e9 = <a.$.C>x</a.$.C>;", "@$.dec class D9 {}", "export default $;", "if ($) $.a; else $.b;",
+];
+
 pub fn gen_fix_program(rng: &mut Rng) -> (String, String) {
+  if rng.chance(1, 8) {
+    let (rule, g) = [("no-window", "window"), ("no-window-prefix", "window"), ("no-process-global", "process"), ("no-node-globals", "Buffer"), ("no-node-globals", "global"), ("no-node-globals", "setImmediate")][rng.below(6)];
+    let n = rng.range(1, 2);
+    let body: Vec<String> = (0..n).map(|_| GLOBAL_REF_SHAPES[rng.below(GLOBAL_REF_SHAPES.len())].replace('$', g)).collect();
+    let head = ["", "import a from \"b\";\n", "// c\n"][rng.below(3)];
+    return (rule.into(), format!("{}{}", head, body.join("\n")));
+  }
   if rng.chance(1, 6) {
     return ("verbatim-module-syntax".into(), gen_verbatim_program(rng));
   }
